@@ -211,7 +211,7 @@ def replay_abstract(sc, drv):
             return ncalls, nuses, where + 'event window: model (%s,%s) implementation (%s,%s)' % (hx(mlo), hx(mhi), hx(ex[5]), hx(ex[6])), paths
         if mst == 'ReachedEventTrigger' and (mlo, mhi) != (r['w0'], r['w1']):
             return ncalls, nuses, where + 'getEventWindow() differs from the model window', paths
-        unused = int(tk[10].split('=')[1]); nu = int(tk[11].split('=')[1])
+        unused = int(tk[11].split('=')[1]); nu = int(tk[12].split('=')[1])
         steps = rec_of(e, 'C19.step')
         if unused != 0 or nu != len(steps):
             return ncalls, nuses, where + 'model consumed %d of %d recorded takeOneStep outcomes' % (nu, len(steps)), paths
